@@ -224,7 +224,28 @@ SendConsMacros(S0) == IF ~V2 THEN {} ELSE UNION { UNION {
       ELSE {}
     : d \in {TRUE, FALSE} } : c \in SENDERS }
 
-EdgeMacros(S0) == StaleMacros(S0) \cup RaceMacros(S0) \cup ExpiredMacros(S0) \cup SendConsMacros(S0) \cup
+\* Out-of-order relays on ORDERED channels: the successor is relayed first (must be rejected), then the packet
+\* whose turn it is, then the successor again (now accepted).
+OooMacros(S0) == IF KIND # "ORDERED" THEN {} ELSE UNION {
+      LET o == Cp(c)  h == S0.ch[o].h + 1 IN
+         { << Blk(o, 1), Upd(c, h),
+              [a |-> "RecvV1", c |-> c, dt |-> 1, pkt |-> Q, ph |-> h],
+              [a |-> "RecvV1", c |-> c, dt |-> 1, pkt |-> P, ph |-> h],
+              [a |-> "RecvV1", c |-> c, dt |-> 1, pkt |-> Q, ph |-> h] >>
+           : <<P, Q>> \in { <<P1, Q1>> \in Sent(S0, o) \X Sent(S0, o) :
+                              /\ P1.seq = S0.ch[c].cur.nr /\ Q1.seq = P1.seq + 1
+                              /\ Key(P1) \in DOMAIN S0.ch[o].cur.commit /\ Key(Q1) \in DOMAIN S0.ch[o].cur.commit } }
+    \cup { << Blk(o, 1), Upd(c, h),
+              [a |-> "AckV1", c |-> c, dt |-> 1, pkt |-> Q, ph |-> h, ack |-> S0.ch[o].cur.ack[Key(Q)], canon |-> TRUE],
+              [a |-> "AckV1", c |-> c, dt |-> 1, pkt |-> P, ph |-> h, ack |-> S0.ch[o].cur.ack[Key(P)], canon |-> TRUE],
+              [a |-> "AckV1", c |-> c, dt |-> 1, pkt |-> Q, ph |-> h, ack |-> S0.ch[o].cur.ack[Key(Q)], canon |-> TRUE] >>
+           : <<P, Q>> \in { <<P1, Q1>> \in Sent(S0, c) \X Sent(S0, c) :
+                              /\ P1.seq = S0.ch[c].cur.na /\ Q1.seq = P1.seq + 1
+                              /\ Key(P1) \in DOMAIN S0.ch[o].cur.ack /\ Key(Q1) \in DOMAIN S0.ch[o].cur.ack
+                              /\ Key(P1) \in DOMAIN S0.ch[c].cur.commit /\ Key(Q1) \in DOMAIN S0.ch[c].cur.commit } }
+    : c \in Chains }
+
+EdgeMacros(S0) == StaleMacros(S0) \cup RaceMacros(S0) \cup ExpiredMacros(S0) \cup SendConsMacros(S0) \cup OooMacros(S0) \cup
     UNION { UNION {
          { MacroRecvEdgeH(S0, c, P, k) : P \in { Q \in PendingRecv(S0, c) : Q.proto = "v1" /\ Q.toH # 0
                                                    /\ Q.toH - k - 2 - S0.ch[c].h \in 0..8 } }
